@@ -213,9 +213,15 @@ def ref_step(st, op, extra):
             for ms, ids in groups.items():
                 if len(ids) < 2:
                     continue
-                kinds = {type(i) for i in ids}
+                # unorderable ids: of different kinds, or of one kind but not comparable (tuples with an int here and a tuple
+                # there - ids made by earlier rename="tuple" merges); sorted() / min() raise TypeError in the library
+                try:
+                    sorted(ids)
+                    unorderable = False
+                except TypeError:
+                    unorderable = True
                 if rename in ("first", "tuple") or rule == "first":
-                    if len(kinds) > 1:
+                    if unorderable:
                         raise Rejected(("TypeError",) if rename in ("first", "tuple", "new") else LIB)
                 if rename == "first":
                     nid = sorted(ids)[0]
